@@ -30,7 +30,7 @@ from rv import gen
 
 ID = "C10"
 LEVEL = "exploration"
-RULE = ("per element configuration (19 configurations of the 10 selective elements): A = "
+RULE = ("per element configuration (21 configurations of the 10 selective elements): A = "
         "ordered selection of 0..2 (quick) / 0..3 (thorough) values from the element's pool "
         "of selected values, B = ordered selection of 1..2 (quick) / 1..3 (thorough; size 3 "
         "sampled by seed) from the element's pool of unselected values (bare numbers, None, "
@@ -150,6 +150,35 @@ def _hist_of_small_hists(b):
 
 # ------------------------------------------------------------------ value builders
 # Every builder returns a FRESH value. *env* gives the scratch paths.
+class FalsyPredicate(object):
+    """A callable selector object that is false in a boolean context (it has a length, 0):
+    perfectly good as a predicate."""
+
+    def __init__(self, f):
+        self._f = f
+
+    def __call__(self, b):
+        return self._f(b)
+
+    def __len__(self):
+        return 0
+
+
+import collections as _collections
+Record = _collections.namedtuple("Record", ["name", "write", "size"])
+
+
+class FlagHolder(object):
+    """Data with non-callable attributes named like methods other elements look for."""
+    write = True
+    run = None
+    fill = 0
+    scale = 2.5
+
+    def __repr__(self):
+        return "FlagHolder()"
+
+
 def _hist1(v=3):
     import lena.structures
     return lena.structures.histogram([0, 1, 2], [v, v + 1])
@@ -220,6 +249,10 @@ COMMON_B = {
     "pair_list_data": lambda env: ([1, 2], {"foo": 1}),
     # a context that is a dict subclass with __missing__: looking at it must not add keys
     "pair_defaultdict": lambda env: (6, _dd({"foo": {"bar": 1}})),
+    "record_write_field": lambda env: Record("n", True, 3),
+    "record_write_field_pair": lambda env: (Record("rec", True, 3),
+                                            {"output": {"filename": "rec"}}),
+    "flag_holder_pair": lambda env: (FlagHolder(), {"output": {"filename": "flags"}}),
     "foreign": lambda env: Foreign("bare"),
     "foreign_pair": lambda env: (Foreign("paired"), {"x": {"y": 2}}),
 }
@@ -398,6 +431,12 @@ CONFIGS = {
                          "hist_int_float_pair", "graph_pair"], []),
     "IterateBins_pred": (["A_histhist", "A_histhist_pair"],
                          ["int", "pair_unrelated", "hist", "histhist_big", "graph_pair"], []),
+    # the same predicates as objects that are false in a boolean context
+    "IterateBins_falsy_pred": (["A_histhist", "A_histhist_pair"],
+                               ["int", "pair_unrelated", "hist", "histhist_big", "graph_pair"], []),
+    "MapBins_falsy_pred": (["A_hist", "A_hist_pair"],
+                           ["int", "pair_unrelated", "foreign", "hist_big", "hist_big_pair",
+                            "hist_float", "A_histhist"], []),
     "IterateBins": (["A_histhist", "A_histhist_pair", "A_histhist2"],
                     ALL_COMMON + ["hist", "hist_pair", "hist_float", "graph_pair"], []),
     "RunIf_callable": (["A_big1", "A_big2", "A_big3"],
@@ -457,6 +496,10 @@ def build_element(name, env):
         return lena.structures.MapBins(_double, select_bins=int, get_example_bin=_last_bin)
     if name == "IterateBins_pred":
         return lena.structures.IterateBins(select_bins=_hist_of_small_hists)
+    if name == "IterateBins_falsy_pred":
+        return lena.structures.IterateBins(select_bins=FalsyPredicate(_hist_of_small_hists))
+    if name == "MapBins_falsy_pred":
+        return lena.structures.MapBins(_double, select_bins=FalsyPredicate(_small_bin))
     if name == "IterateBins":
         return lena.structures.IterateBins()
     if name == "RunIf_callable":
@@ -759,3 +802,6 @@ def run_case(r, obs):
         c.close()
         from rv.props import _out_stubs
         _out_stubs.limit_repeats(obs, _REPORTED, 4)
+RULE += (' Added: unselected data with non-callable attributes named write / run / fill / scale (a '
+         'namedtuple with a boolean field "write", a flag object); selector predicates given as '
+         'callable objects that are false in a boolean context.')
